@@ -105,7 +105,7 @@ def to_driver_stimuli(behaviours, palettes, seed, all_palettes=False, tolerant=F
 # ---------------------------------------------------------------------- replay
 def _replay_chunk(args):
     chunk, wd, modname = args
-    sys.path.insert(0, "/repo")
+    sys.path.insert(0, os.environ.get("VERIF_REPO", "/repo"))
     import importlib
     driver = importlib.import_module("harness." + modname)
     return driver.run_batch(chunk, wd)
